@@ -417,12 +417,32 @@ def _check_reset_body(db, f, rule):
         else:
             rule.ok('closure-arg', 'seeded with the target', f.loc(eo[0]))
     # decision table of the loop body over (dependant == target, CstType)
+    # a query of the core about the dependant outside the vocabulary (its parse status, its text, ...) is a runtime quantity: a free boolean,
+    # both values are evaluated, and a dependant that is left alone under either one keeps a value computed from the replaced data
+    import itertools
+    seen = []
     try:
-        table = evalmini.reset_decision_table(db, f, lp)
+        evalmini.reset_decision_table(db, f, lp, free=({}, seen))
+        tables = []
+        for bits in itertools.product((True, False), repeat=len(seen)):
+            assign = dict(zip(seen, bits))
+            tables.append((assign, evalmini.reset_decision_table(db, f, lp, free=(assign, list(seen)))))
+        if len(seen) > 6:
+            raise evalmini.OutOfFragment('%d free conditions' % len(seen))
     except evalmini.OutOfFragment as e:
         rule.broken('ResetDependants loop body outside the summarised fragment: %s' % e)
         return
     problems = []
+    table = tables[0][1]
+    for assign, tab in tables:
+        _decide_reset_table(tab, problems, ''.join(' [when `%s` is %s]' % (k, str(v).lower()) for k, v in assign.items()))
+    if problems:
+        rule.violation('decision-table', f.loc(lp), '; '.join(problems[:6]))
+    else:
+        rule.ok('decision-table', '%d (same?, kind) cases evaluated%s: derived kinds reset value+flag, structures pruned/reset, base sets and the target skipped' % (len(table), ' under %d assignments of %d free conditions' % (len(tables), len(seen)) if seen else ''), f.loc(lp))
+
+
+def _decide_reset_table(table, problems, suffix):
     for (same, tname), acts in sorted(table.items()):
         acts = set(acts)
         value_reset = (VALUES + '::ResetFor') in acts
@@ -432,18 +452,14 @@ def _check_reset_body(db, f, rule):
             continue  # the target itself is handled by the caller (r3) — any action is acceptable
         if tname in ('base', 'constant'):
             if value_reset:
-                problems.append('%s dependant has its given interpretation reset' % tname)
+                problems.append('%s dependant has its given interpretation reset%s' % (tname, suffix))
             continue
         if tname == 'structured':
             if not (prune or value_reset):
-                problems.append('structured dependant is neither pruned nor reset')
+                problems.append('structured dependant is neither pruned nor reset%s' % suffix)
             continue
         if not (value_reset and flag_reset):
-            problems.append('%s dependant: value reset=%s, calculated flag reset=%s' % (tname, value_reset, flag_reset))
-    if problems:
-        rule.violation('decision-table', f.loc(lp), '; '.join(problems))
-    else:
-        rule.ok('decision-table', '%d (same?, kind) cases evaluated: derived kinds reset value+flag, structures pruned/reset, base sets and the target skipped' % len(table), f.loc(lp))
+            problems.append('%s dependant: value reset=%s, calculated flag reset=%s%s' % (tname, value_reset, flag_reset, suffix))
 
 
 def _value_sources(db, rep):
